@@ -37,7 +37,7 @@ func genCfg(r *Run, odd bool, i int) hCfg {
 		Prefix:      pick(rng, []string{"", "", "app1", "my-app_2"}),
 		IDHeader:    pick(rng, []string{"authorization", "x-id-token", "Authorization"}), IDPreamble: pick(rng, []string{"Bearer", "", "Token"}),
 		Access: rng.Intn(2) == 0, AccHeader: pick(rng, []string{"x-access-token", "x-at"}), AccPreamble: pick(rng, []string{"", "Bearer"}),
-		Logout: rng.Intn(3) != 0, LogoutPath: pick(rng, []string{"/logout", "/app/logout"}), LogoutURI: pick(rng, []string{"https://idp.example.com/logout", "https://idp.example.com/end?x=1&y=2"}),
+		Logout: rng.Intn(3) != 0, LogoutPath: pick(rng, []string{"/logout", "/app/logout", "/d%C3%A9connexion", "/log%20out"}), LogoutURI: pick(rng, []string{"https://idp.example.com/logout", "https://idp.example.com/end?x=1&y=2"}),
 		Store: pick(rng, []string{"mem", "mem", "redis"}),
 	}
 	if rng.Intn(8) == 0 {
